@@ -57,6 +57,10 @@ let rec parse_op (s : string) : op =
   | ["rc"; a; b'; m; f] -> OReplaceCh (num a, num b', num m, num f)
   | ["rs"; a; b'; m; f] -> OReplaceS (sarg a, sarg b', num m, num f)
   | ["uf"; x] -> OUnflatten (bytes_of_hex x)
+  | ["ufw"; x; w; ps] ->
+      let pre t = if t = "c" || t = "s" then PStr else if t = "i" then PBytes (n_of_int 4)
+                  else PBytes (num (String.sub t 1 (String.length t - 1))) in
+      OUnflattenW (bytes_of_hex x, num w, List.map pre (List.filter (fun t -> t <> "") (String.split_on_char '.' ps)))
   | ["argd"; _; mn; _; txt] | ["argf"; _; mn; _; txt] -> OArgFloatText (bytes_of_hex txt, num mn)
   | ["rm"; ps; m] -> OReplaceMulti (pairs ps, num m)
   | ["wrm"; ps; m] -> OWithReplMulti (pairs ps, num m)
